@@ -413,6 +413,12 @@ func (f *File) seekWithoutLocking(offset int64, whence int) (int64, error) {
 					return
 				}
 
+				// A restore that fails with `io.EOF` (i.e. a decryptor that finds no data at all where the header
+				// announces content) must not look like the regular end of the file to the reading side
+				if err == io.EOF {
+					err = io.ErrUnexpectedEOF
+				}
+
 				// Hand the error to the reading side instead of crashing the process
 				_ = writer.CloseWithError(err)
 			}
@@ -619,6 +625,12 @@ func (f *File) Read(p []byte) (n int, err error) {
 			); err != nil {
 				if err == io.ErrClosedPipe {
 					return
+				}
+
+				// A restore that fails with `io.EOF` (i.e. a decryptor that finds no data at all where the header
+				// announces content) must not look like the regular end of the file to the reading side
+				if err == io.EOF {
+					err = io.ErrUnexpectedEOF
 				}
 
 				// Hand the error to the reading side instead of crashing the process
